@@ -4,8 +4,8 @@ ID = "C04"
 PROP = {
         "props_module": "FV.Props.C04",
         "builders": {"rt": V.build_rt, "py": V.build_py},
-        "suites": [("rt", "c04", {"quick": 600, "thorough": 40000}), ("py", "c04py", {"quick": 1500, "thorough": 40000})],
-        "rule": "Go: header maps of 0..40 pairs (lengths 0,1,255,256,65536; ASCII, multi-byte UTF-8, arbitrary bytes incl. 0x00) followed by payloads of 0..4096 bytes; ops mar/csz/ums/hff/umf/ahf. Python (lib/python/frugal/util/headers.py under python3, `thrift` exception class stubbed): UTF-8 maps of 0..20 pairs written by _write_to_bytearray (layout checked by the model), read back by _read and decode_from_frame, compared with the model on the same bytes.",
+        "suites": [("rt", "c04", {"quick": 600, "thorough": 40000}), ("py", "c04py", {"quick": 1500, "thorough": 40000}), ("rt", "c04proto", {"quick": 1500, "thorough": 60000}), ("rt", "c04conc", {"quick": 1500, "thorough": 60000})],
+        "rule": "FProtocol layer (c04proto): maps as any peer may send them (with/without _opid, _cid, _timeout; reserved names with arbitrary content) through the real ReadRequestHeader / ReadResponseHeader (contexts with pre-existing response headers) and Write{Request,Response}Header of a third-party FContext; concurrent use (c04conc): 2-4 goroutines read different header blocks from unrelated streams in lock-step (every Read completes before any reader continues), each must get its own map and payload. Go: header maps of 0..40 pairs (lengths 0,1,255,256,65536; ASCII, multi-byte UTF-8, arbitrary bytes incl. 0x00) followed by payloads of 0..4096 bytes; ops mar/csz/ums/hff/umf/ahf. Python (lib/python/frugal/util/headers.py under python3, `thrift` exception class stubbed): UTF-8 maps of 0..20 pairs written by _write_to_bytearray (layout checked by the model), read back by _read and decode_from_frame, compared with the model on the same bytes.",
         "trusted": ["Modelled, not verified: Go map iteration (any order), encoding/binary, thrift.TMemoryBuffer as the stream reader"],
         "level_text": "Theorems (Lean 4, kernel-checked) over the model of lib/go/protocol.go for ALL header lists with distinct names and ALL payloads: the marshalled bytes are the documented v0 layout, stream and frame readers return exactly the map and leave the payload untouched, any iteration order decodes to the same map, addHeadersToFrame yields size/merged headers/same payload, the layout decodes uniquely. The model is tied to the Go code (and the Python codec) by differential runs on every check.",
         "level_note": "Trusted: Lean kernel (+ propext/Classical.choice/Quot.sound), the hand-written model, the correspondence harness and its generators; Go maps, encoding/binary and TMemoryBuffer are modelled, not verified. Hypothesis: total header size < 2^31.",
